@@ -203,6 +203,24 @@ func (g *Generator) generateBytesFieldMarshal(gf *protogen.GeneratedFile, fieldI
 	jsonName := field.Desc.JSONName()
 	encoding := fieldInfo.Encoding
 
+	if field.Desc.IsList() {
+		// repeated bytes: every element in the configured encoding
+		codec := bytesEncodingCodec(encoding)
+		if codec == "" {
+			return
+		}
+		gf.P("// Encode every element of ", field.Desc.Name(), " with ", encoding.String())
+		gf.P("if len(x.", goName, ") > 0 {")
+		gf.P("encoded := make([]string, len(x.", goName, "))")
+		gf.P("for i, b := range x.", goName, " {")
+		gf.P("encoded[i] = ", codec, ".EncodeToString(b)")
+		gf.P("}")
+		gf.P(`raw["`, jsonName, `"], _ = json.Marshal(encoded)`)
+		gf.P("}")
+		gf.P()
+		return
+	}
+
 	gf.P("// Encode ", field.Desc.Name(), " with ", encoding.String())
 	gf.P("if len(x.", goName, ") > 0 {")
 
@@ -270,6 +288,34 @@ func (g *Generator) generateBytesFieldUnmarshal(gf *protogen.GeneratedFile, fiel
 	jsonName := field.Desc.JSONName()
 	encoding := fieldInfo.Encoding
 
+	if field.Desc.IsList() {
+		codec := bytesEncodingCodec(encoding)
+		if codec == "" {
+			return
+		}
+		gf.P("// Decode every element of ", field.Desc.Name(), " from ", encoding.String(), " to standard base64")
+		gf.P(`if v, ok := raw["`, jsonName, `"]; ok {`)
+		gf.P("var elems []string")
+		gf.P("if err := json.Unmarshal(v, &elems); err == nil {")
+		gf.P("std := make([]string, 0, len(elems))")
+		gf.P("valid := true")
+		gf.P("for _, s := range elems {")
+		gf.P("decoded, decErr := ", codec, ".DecodeString(s)")
+		gf.P("if decErr != nil {")
+		gf.P("valid = false")
+		gf.P("break")
+		gf.P("}")
+		gf.P("std = append(std, base64.StdEncoding.EncodeToString(decoded))")
+		gf.P("}")
+		gf.P("if valid {")
+		gf.P(`raw["`, jsonName, `"], _ = json.Marshal(std)`)
+		gf.P("}")
+		gf.P("}")
+		gf.P("}")
+		gf.P()
+		return
+	}
+
 	gf.P("// Decode ", field.Desc.Name(), " from ", encoding.String(), " to standard base64")
 	gf.P(`if v, ok := raw["`, jsonName, `"]; ok {`)
 	gf.P("var s string")
@@ -304,4 +350,22 @@ func (g *Generator) generateBytesFieldUnmarshal(gf *protogen.GeneratedFile, fiel
 	gf.P("}")
 	gf.P("}")
 	gf.P()
+}
+
+// bytesEncodingCodec names the standard-library value whose EncodeToString / DecodeString implement
+// the encoding ("" for the default encodings, which need no codec).
+func bytesEncodingCodec(encoding http.BytesEncoding) string {
+	//exhaustive:ignore -- UNSPECIFIED/BASE64 are the protojson default
+	switch encoding {
+	case http.BytesEncoding_BYTES_ENCODING_HEX:
+		return "hex"
+	case http.BytesEncoding_BYTES_ENCODING_BASE64_RAW:
+		return "base64.RawStdEncoding"
+	case http.BytesEncoding_BYTES_ENCODING_BASE64URL:
+		return "base64.URLEncoding"
+	case http.BytesEncoding_BYTES_ENCODING_BASE64URL_RAW:
+		return "base64.RawURLEncoding"
+	default:
+		return ""
+	}
 }
